@@ -526,6 +526,25 @@ Definition put_conn (s : state) (k : nat) (c : conn) (r : registry) (n : Z) : st
 
 Definition seq_name (seq : Z) : bytes := [48 + seq].   (* the harness's sequence numbers stand for themselves *)
 
+(* which stream an answer came from: the 1-based position in the watch list of the registry key whose
+   description (DESCRIBE of a pre-published stream: every one has its own session name) or media (PLAY: every
+   stream is fed packets carrying its own SSRC) reached the client; 0 = nothing identifiable *)
+Fixpoint key_index (watch : list bytes) (k : bytes) (i : Z) : Z :=
+  match watch with
+  | [] => 0
+  | p :: w => if bytes_eqb (canonical_path p) k then i else key_index w k (i + 1)
+  end.
+Definition served_index (watch : list bytes) (k : bytes) : Z := key_index watch k 1.
+Definition src_aux (watch : list bytes) (m code : Z) (c2 : conn) (r : registry) : Z :=
+  if (m =? M_DESCRIBE) && (code =? 200) then
+    match live r (c_path c2) with
+    | Some o => if o =? 1 then served_index watch (canonical_path (c_path c2)) else 0
+    | None => 0
+    end
+  else if (m =? M_PLAY) && (c_status c2 =? 2) && flowing r c2 then
+    match c_src c2 with Some (k, _) => served_index watch k | None => 0 end
+  else 0.
+
 (* one event, by kind *)
 Definition step_login (s : state) (name pw : bytes) : state * obs :=
   match name, pw with
@@ -555,15 +574,33 @@ Definition step_rtsp (fixed : bool) (watch : list bytes) (s : state) (k : nat) (
         (* a wrong response retires the nonce; a refused request does not stop what the session is sending *)
         let c1 := if rot then set_nonce c true true else set_nonce c (c_rot c) false in
         (put_conn s k c1 (reg s) (ctr s + (if rot then 1 else 0)),
-         with_reg (ob 401 0 ((m =? M_PLAY) && (c_status c =? 2) && flowing (reg s) c) 0) watch (reg s))
+         with_reg (ob 401 (src_aux watch m 401 c (reg s)) ((m =? M_PLAY) && (c_status c =? 2) && flowing (reg s) c) 0) watch (reg s))
     | (Some uname, _) =>
         let '(c2, code, pub) := rtsp_handle false (perm_go (users s) uname) (reg s) (2 + Z.of_nat k) c m path in
         let r2 := match pub with Some p => reg_put (reg s) p (2 + Z.of_nat k) | None => reg s end in
         (put_conn s k (set_nonce c2 (c_rot c) false) r2 (ctr s),
-         with_reg (ob code 0 ((m =? M_PLAY) && (c_status c2 =? 2) && flowing r2 c2) 0) watch r2)
+         with_reg (ob code (src_aux watch m code c2 r2) ((m =? M_PLAY) && (c_status c2 =? 2) && flowing r2 c2) 0) watch r2)
     end.
 
-Definition step_wsopen (fixed : bool) (s : state) (kind : Z) (path : bytes) (t : tokv) (chan : nat)
+(* http.ServeMux answers 301 unless the URL path is its own cleanPath (path.Clean, trailing slash kept);
+   the /streams/ URLs the harness builds: /streams<path> for the WebSocket sessions, <path>.flv, <path>.m3u8,
+   <path>/<n>.ts.  extractStreamPathAndExt gives back <path> (its last segment has no dot of its own, or is
+   "." / ".."), as repaired in its canonical form. *)
+Definition STREAMS : bytes := [47;115;116;114;101;97;109;115].   (* "/streams" *)
+Definition EXT_FLV : bytes := [46;102;108;118].
+Definition EXT_M3U8 : bytes := [46;109;51;117;56].
+Definition EXT_TS : bytes := [46;116;115].
+Definition mux_clean (u : bytes) : bytes :=
+  let np := clean_rooted u in
+  if ends_with SLASH u && negb (bytes_eqb np [SLASH]) then np ++ [SLASH] else np.
+Definition mux_ok (u : bytes) : bool := bytes_eqb (mux_clean u) u.
+Definition ws_url (kind : Z) (path : bytes) : bytes := STREAMS ++ path ++ (if kind =? 3 then EXT_FLV else []).
+Definition http_url (kind : Z) (path : bytes) (seq : Z) : bytes :=
+  STREAMS ++ path ++ (if kind =? 0 then EXT_FLV else if kind =? 1 then EXT_M3U8 else SLASH :: [48 + seq] ++ EXT_TS).
+(* the stream path the interceptors and the WebSocket session are given *)
+Definition url_path (fixed : bool) (path : bytes) : bytes := if fixed then canonical_path path else path.
+
+Definition step_wsopen_in (fixed : bool) (s : state) (kind : Z) (path : bytes) (t : tokv) (chan : nat)
            (hdrs : list hdr) : state * obs :=
   let '(code, uname) := stream_gate fixed s t path None hdrs in
   if negb (code =? 200) then
@@ -585,6 +622,13 @@ Definition step_wsopen (fixed : bool) (s : state) (kind : Z) (path : bytes) (t :
   else
     (s, ob 101 0 (match live (reg s) path with Some _ => true | None => false end) 0).
 
+Definition step_wsopen (fixed : bool) (s : state) (kind : Z) (path : bytes) (t : tokv) (chan : nat)
+           (hdrs : list hdr) : state * obs :=
+  if negb (mux_ok (ws_url kind path)) then
+    (if (kind =? 0) || (kind =? 1)
+     then set_conns s (conns s ++ [dead_conn]) (reg s) (ctr s) else s, ob 301 0 false 0)
+  else step_wsopen_in fixed s kind (url_path fixed path) t chan hdrs.
+
 Definition step_wsrtsp (fixed : bool) (watch : list bytes) (s : state) (k : nat) (m : Z) (path : bytes) : state * obs :=
   let c := get_conn s k in
   if negb (c_kind c =? K_WSRTSP) then (s, with_reg (ob (-1) 0 false 0) watch (reg s))
@@ -594,17 +638,18 @@ Definition step_wsrtsp (fixed : bool) (watch : list bytes) (s : state) (k : nat)
     let '(c2, code, pub) := rtsp_handle true pm (reg s) (2 + Z.of_nat k) c m path in
     let r2 := match pub with Some p => reg_put (reg s) p (2 + Z.of_nat k) | None => reg s end in
     (put_conn s k c2 r2 (ctr s),
-     with_reg (ob code 0 ((m =? M_PLAY) && (c_status c2 =? 2) && flowing r2 c2) 0) watch r2).
+     with_reg (ob code (src_aux watch m code c2 r2) ((m =? M_PLAY) && (c_status c2 =? 2) && flowing r2 c2) 0) watch r2).
 
-Definition step_wsp (fixed : bool) (s : state) (k : nat) (m : Z) : state * obs :=
+Definition step_wsp (fixed : bool) (watch : list bytes) (s : state) (k : nat) (m : Z) : state * obs :=
   let c := get_conn s k in
   if negb (c_kind c =? K_WSP) then (s, ob (-1) 0 false 0)
   else
     let '(c2, code) := wsp_handle fixed (perm_go (users s) (c_user c)) (reg s) c m in
     (put_conn s k c2 (reg s) (ctr s),
-     ob code 0 ((m =? M_PLAY) && (c_status c2 =? 2) && c_data c2 && flowing (reg s) c2) 0).
+     ob code (if (m =? M_PLAY) && negb (c_data c2) then 0 else src_aux watch m code c2 (reg s))
+        ((m =? M_PLAY) && (c_status c2 =? 2) && c_data c2 && flowing (reg s) c2) 0).
 
-Definition step_http (fixed : bool) (s : state) (kind : Z) (path : bytes) (t : tokv) (seq : Z)
+Definition step_http_in (fixed : bool) (s : state) (kind : Z) (path : bytes) (t : tokv) (seq : Z)
            (hdrs : list hdr) : state * obs :=
   let '(code, _) := stream_gate fixed s t path (if kind =? 2 then Some (seq_name seq) else None) hdrs in
   if negb (code =? 200) then (s, ob code 0 false 0)
@@ -617,6 +662,11 @@ Definition step_http (fixed : bool) (s : state) (kind : Z) (path : bytes) (t : t
            else if (kind =? 2) && (negb (o =? 1) || negb (seg_listed seq)) then (s, ob 404 0 false 0)
            else (s, ob 200 0 true 0)
        end.
+
+Definition step_http (fixed : bool) (s : state) (kind : Z) (path : bytes) (t : tokv) (seq : Z)
+           (hdrs : list hdr) : state * obs :=
+  if negb (mux_ok (http_url kind path seq)) then (s, ob 301 0 false 0)
+  else step_http_in fixed s kind (url_path fixed path) t seq hdrs.
 
 Definition step_api (s : state) (ep : Z) (t : tokv) (u : user) (upd_pw : bool) (name : bytes)
            (hdrs : list hdr) : state * obs :=
@@ -641,7 +691,7 @@ Definition step_gen (fixed : bool) (watch : list bytes) (s : state) (ev : event)
   | ERtsp k m path cr => step_rtsp fixed watch s k m path cr
   | EWsOpen kind path t chan hdrs => step_wsopen fixed s kind path t chan hdrs
   | EWsRtsp k m path => step_wsrtsp fixed watch s k m path
-  | EWsp k m path => step_wsp fixed s k m
+  | EWsp k m path => step_wsp fixed watch s k m
   | EHttp kind path t seq hdrs => step_http fixed s kind path t seq hdrs
   | EApi ep t u upd_pw name hdrs => step_api s ep t u upd_pw name hdrs
   end.
@@ -726,13 +776,13 @@ Definition target (s : state) (ev : event) : action * bytes :=
   | ERtsp k m path _ => rtsp_target false (get_conn s k) m path
   | EWsRtsp k m path => rtsp_target true (get_conn s k) m path
   | EWsp k m _ => (APull, if m =? M_DESCRIBE then c_wspath (get_conn s k) else c_path (get_conn s k))
-  | EWsOpen kind path _ chan _ => (APull, path)
-  | EHttp _ path _ _ _ => (APull, path)
+  | EWsOpen kind path _ chan _ => (APull, canonical_path path)
+  | EHttp _ path _ _ _ => (APull, canonical_path path)
   | EApi ep _ _ _ _ _ => (if ep_read ep then AApiRead else AAdmin, [])
   | _ => (AApiRead, [])
   end.
 
-Definition allowed (s : state) (ev : event) : bool :=
+Definition allowed_chk (s : state) (ev : event) : bool :=
   match identity s ev with
   | Some u => let '(act, p) := target s ev in spec_allows (users s) u act p
   | None => false
@@ -787,9 +837,10 @@ Definition feasible (watch : list bytes) (s : state) (ev : event) : bool :=
   | EWsp k m _ =>
       let c := get_conn s k in
       (c_kind c =? K_WSP) && (let '(_, code) := wsp_handle true (fun _ _ => true) (reg s) c m in code =? 200)
-  | EWsOpen kind _ _ _ _ => true
+  | EWsOpen kind path _ _ _ => mux_ok (ws_url kind path)
   | EHttp kind path _ seq _ =>
-      match live (reg s) path with
+      mux_ok (http_url kind path seq) &&
+      match live (reg s) (canonical_path path) with
       | Some o => if kind =? 0 then true else (o =? 1) && negb ((kind =? 2) && negb (seg_listed seq))
       | None => false
       end
@@ -810,34 +861,35 @@ Definition is_request (ev : event) : bool :=
 Definition unauth_code (ev : event) (o : obs) : bool :=
   match ev with
   | ERtsp _ _ _ _ => (o_code o =? 401) || (o_code o =? 455) || (o_code o =? (-1))
-  | EWsOpen _ _ _ _ _ | EHttp _ _ _ _ _ | EApi _ _ _ _ _ _ => o_code o =? 401
+  | EWsOpen _ _ _ _ _ | EHttp _ _ _ _ _ => (o_code o =? 401) || (o_code o =? 301)
+  | EApi _ _ _ _ _ _ => o_code o =? 401
   | _ => true
   end.
 
 (* joining a data channel: media of the control channel's stream goes to the joiner, who must be the
    verified user of that control channel and hold the pull right on its path now; the owner is not refused *)
-Definition judge_join (s : state) (ev : event) (o : obs) : bool :=
+Definition judge_join_chk (s : state) (ev : event) (o : obs) : bool :=
   match ev with
   | EWsOpen kind path _ chan _ =>
       if kind =? 2 then
         let c := get_conn s chan in
         match identity s ev with
         | Some u =>
-            let mine := (c_kind c =? K_WSP) && bytes_eqb u (c_user c) && bytes_eqb path (c_wspath c) in
+            let mine := (c_kind c =? K_WSP) && bytes_eqb u (c_user c) && bytes_eqb (canonical_path path) (c_wspath c) in
             implb (o_media o || (o_aux o =? 200)) (mine && spec_allows (users s) u APull (c_path c)) &&
-            implb (mine && spec_allows (users s) u APull path) (o_aux o =? 200)
+            implb (mux_ok (ws_url kind path) && mine && spec_allows (users s) u APull (canonical_path path)) (o_aux o =? 200)
         | None => negb (o_media o) && negb (o_aux o =? 200)
         end
       else true
   | _ => true
   end.
 
-Definition judge (watch : list bytes) (s : state) (ev : event) (o : obs) : bool :=
+Definition judge_chk (watch : list bytes) (s : state) (ev : event) (o : obs) : bool :=
   if is_request ev then
-    (implb (granted ev o) (allowed s ev || keepalive s ev)) &&
-    (implb (allowed s ev && feasible watch s ev) (accepted ev o)) &&
+    (implb (granted ev o) (allowed_chk s ev || keepalive s ev)) &&
+    (implb (allowed_chk s ev && feasible watch s ev) (accepted ev o)) &&
     (match identity s ev with None => unauth_code ev o | Some _ => true end) &&
-    judge_join s ev o
+    judge_join_chk s ev o
   else true.
 
 (* registry part: the owners of the watched paths change only through a granted RECORD of the session
@@ -852,7 +904,61 @@ Fixpoint zlist_eqb (a b : list Z) : bool :=
   | _, _ => false
   end.
 
-Definition judge_reg (watch : list bytes) (s : state) (ev : event) (o : obs) : bool :=
+Definition judge_reg_chk (watch : list bytes) (s : state) (ev : event) (o : obs) : bool :=
+  match ev with
+  | ERtsp k m _ _ | EWsRtsp k m _ =>
+      let before := reg_view watch (reg s) in
+      if zlist_eqb (o_reg o) before then true
+      else (m =? M_RECORD) && (o_code o =? 200) && allowed_chk s ev
+  | _ => true
+  end.
+
+Fixpoint ok_run_chk (watch : list bytes) (s : state) (evs : list event) (os : list obs) : bool :=
+  match evs, os with
+  | [], [] => true
+  | e :: evs', o :: os' =>
+      judge_chk watch s e o && judge_reg_chk watch s e o && ok_run_chk watch (fst (step watch s e)) evs' os'
+  | _, _ => false
+  end.
+
+
+(* The reference monitor decides on the resource that is actually served: the registry key
+   canonical_path p of the path p handed to the lookup / the publication, not on the spelling the
+   permission check happens to be given. [allowed] is the monitor, [allowed_chk] the same question asked
+   about p itself (what the code asks). *)
+Definition served_key (p : bytes) : bytes := canonical_path p.
+
+Definition allowed (s : state) (ev : event) : bool :=
+  match identity s ev with
+  | Some u => let '(act, p) := target s ev in spec_allows (users s) u act (served_key p)
+  | None => false
+  end.
+
+Definition judge_join_strict (s : state) (ev : event) (o : obs) : bool :=
+  match ev with
+  | EWsOpen kind path _ chan _ =>
+      if kind =? 2 then
+        let c := get_conn s chan in
+        match identity s ev with
+        | Some u =>
+            let mine := (c_kind c =? K_WSP) && bytes_eqb u (c_user c) && bytes_eqb (canonical_path path) (c_wspath c) in
+            implb (o_media o || (o_aux o =? 200)) (mine && spec_allows (users s) u APull (served_key (c_path c))) &&
+            implb (mux_ok (ws_url kind path) && mine && spec_allows (users s) u APull (served_key (canonical_path path))) (o_aux o =? 200)
+        | None => negb (o_media o) && negb (o_aux o =? 200)
+        end
+      else true
+  | _ => true
+  end.
+
+Definition judge_strict (watch : list bytes) (s : state) (ev : event) (o : obs) : bool :=
+  if is_request ev then
+    (implb (granted ev o) (allowed s ev || keepalive s ev)) &&
+    (implb (allowed s ev && feasible watch s ev) (accepted ev o)) &&
+    (match identity s ev with None => unauth_code ev o | Some _ => true end) &&
+    judge_join_strict s ev o
+  else true.
+
+Definition judge_reg_strict (watch : list bytes) (s : state) (ev : event) (o : obs) : bool :=
   match ev with
   | ERtsp k m _ _ | EWsRtsp k m _ =>
       let before := reg_view watch (reg s) in
@@ -861,11 +967,55 @@ Definition judge_reg (watch : list bytes) (s : state) (ev : event) (o : obs) : b
   | _ => true
   end.
 
+Fixpoint ok_run_strict (watch : list bytes) (s : state) (evs : list event) (os : list obs) : bool :=
+  match evs, os with
+  | [], [] => true
+  | e :: evs', o :: os' =>
+      judge_strict watch s e o && judge_reg_strict watch s e o && ok_run_strict watch (fst (step watch s e)) evs' os'
+  | _, _ => false
+  end.
+
+
+(* The documented pattern language reads a path as its '/'-separated segments, blanks around a segment and
+   letter case ignored; the registry reads it through CanonicalPath, which is not idempotent on paths with
+   a blank-edged dot segment ("/a/. /x/.." -> "/a/. " -> "/a").  [path_ok p]: both readings of p name the same
+   resource.  The class where they differ is the known finding C11 path-check-differs-from-served; the
+   oracle is strict inside the class [ev_ok]. *)
+Fixpoint blist_eqb (a b : list bytes) : bool :=
+  match a, b with
+  | [], [] => true
+  | x :: a', y :: b' => bytes_eqb x y && blist_eqb a' b'
+  | _, _ => false
+  end.
+Definition same_segs (a b : bytes) : bool := blist_eqb (segments (trim_space a)) (segments (trim_space b)).
+Definition path_ok (p : bytes) : bool := same_segs p (served_key p).
+Definition ev_ok (s : state) (ev : event) : bool :=
+  path_ok (snd (target s ev)) &&
+  match ev with
+  | EWsOpen kind _ _ chan _ => if kind =? 2 then path_ok (c_path (get_conn s chan)) else true
+  | _ => true
+  end.
+
+Definition judge (watch : list bytes) (s : state) (ev : event) (o : obs) : bool :=
+  if ev_ok s ev then judge_strict watch s ev o else true.
+Definition judge_reg (watch : list bytes) (s : state) (ev : event) (o : obs) : bool :=
+  if ev_ok s ev then judge_reg_strict watch s ev o else true.
+
+(* what was served is the resource the decision was about: an identifiable description / media stream is that of
+   the registry key served_key p of the request's target path p (a session already playing keeps its stream) *)
+Definition judge_src (watch : list bytes) (s : state) (ev : event) (o : obs) : bool :=
+  match ev with
+  | ERtsp _ _ _ _ | EWsRtsp _ _ _ | EWsp _ _ _ =>
+      (o_aux o =? 0) || keepalive s ev || (o_aux o =? served_index watch (served_key (snd (target s ev))))
+  | _ => true
+  end.
+
 Fixpoint ok_run (watch : list bytes) (s : state) (evs : list event) (os : list obs) : bool :=
   match evs, os with
   | [], [] => true
   | e :: evs', o :: os' =>
-      judge watch s e o && judge_reg watch s e o && ok_run watch (fst (step watch s e)) evs' os'
+      judge watch s e o && judge_reg watch s e o && judge_src watch s e o &&
+      ok_run watch (fst (step watch s e)) evs' os'
   | _, _ => false
   end.
 
